@@ -38,18 +38,43 @@ func verifWhenInit() {
 		if unsafe.Sizeof(uintptr(0)) != 8 {
 			return
 		}
-		a := time.AfterFunc(time.Hour, func() {})
-		now := time.Now()
-		verifNanoBase = verifWhen(a) - int64(time.Hour)
-		verifWallBase = now
-		a.Stop()
+		// pair a wall (monotonic) reading with the runtime's nanotime: the timer is created between two clock
+		// readings; a pair is accepted only if the two readings are less than 100µs apart (the process may be
+		// descheduled between any two statements on a loaded machine), the midpoint is used
+		paired := false
+		for try := 0; try < 5000 && !paired; try++ {
+			n0 := time.Now()
+			a := time.AfterFunc(time.Hour, func() {})
+			n1 := time.Now()
+			w := verifWhen(a)
+			a.Stop()
+			if d := n1.Sub(n0); d >= 0 && d < 100*time.Microsecond {
+				verifNanoBase = w - int64(time.Hour)
+				verifWallBase = n0.Add(d / 2)
+				paired = true
+			}
+		}
+		if !paired {
+			return
+		}
 		ok := true
 		for _, d := range []time.Duration{50 * time.Millisecond, 3 * time.Second} {
 			b := time.AfterFunc(time.Hour, func() {})
 			b.Reset(d) // the deadline timers are renewed with Reset
-			got := verifWallBase.Add(time.Duration(verifWhen(b) - verifNanoBase)).Sub(time.Now())
+			// the same bracketing for the check: expected expiry within [n0+d, n1+d] (± 1ms)
+			good := false
+			for try := 0; try < 200 && !good; try++ {
+				n0 := time.Now()
+				b.Reset(d)
+				n1 := time.Now()
+				at := verifWallBase.Add(time.Duration(verifWhen(b) - verifNanoBase))
+				if n1.Sub(n0) < 100*time.Microsecond {
+					good = !at.Before(n0.Add(d-time.Millisecond)) && !at.After(n1.Add(d+time.Millisecond))
+					break
+				}
+			}
 			b.Stop()
-			if got < d-20*time.Millisecond || got > d+20*time.Millisecond {
+			if !good {
 				ok = false
 			}
 		}
@@ -66,11 +91,16 @@ func (c *Conn) VerifDeadlines() (r, w time.Time, ok bool) {
 	}
 	c.mux.Lock()
 	defer c.mux.Unlock()
+	// a timer that has fired (its callback is about to close the conn) has when = 0: it is not armed any more
 	if c.rTimer != nil {
-		r = verifWallBase.Add(time.Duration(verifWhen(c.rTimer) - verifNanoBase))
+		if wn := verifWhen(c.rTimer); wn > 0 {
+			r = verifWallBase.Add(time.Duration(wn - verifNanoBase))
+		}
 	}
 	if c.wTimer != nil {
-		w = verifWallBase.Add(time.Duration(verifWhen(c.wTimer) - verifNanoBase))
+		if wn := verifWhen(c.wTimer); wn > 0 {
+			w = verifWallBase.Add(time.Duration(wn - verifNanoBase))
+		}
 	}
 	return r, w, true
 }
